@@ -6,7 +6,7 @@ pub const MAX_LEN: usize = 64 * 1024;
 pub const MAX_DEPTH: usize = 100;
 
 pub const DID_TOKENS: &[&str] = &[
-  "", " ", "did", "did:", "did::", "did:a", "did:a:", "did:a:b", "did:a:b:", "did:0:0", ":a:b", "DID:a:b", "did:A:b",
+  "", " ", "did:a:%41", "\u{7f}did:a:b", "did", "did:", "did::", "did:a", "did:a:", "did:a:b", "did:a:b:", "did:0:0", ":a:b", "DID:a:b", "did:A:b",
   " did:example:123", "did:example:123 ", "did:example:123\n", "\tdid:example:123\r\n", "  did:a:b", "did:example:123\u{0}",
   "did:ex:a%41{b", "did:example:123/path?q#f", "did:example:%", "did:example:%4", "did:example:%zz", "did:example:%+f",
   "did:example:a%4", "did:example:1#", "did:example:1?", "did:example:1??a", "did:example:1##", "did:example:1#a#b",
